@@ -351,7 +351,7 @@ func runCrashSim(r *Run, prop string, cfg PipeCfg, st *Stream, maxCrashes int, c
 		ph := in.getPhase()
 		if ph == 2 {
 			// Send ended by itself in a healthy run: the tool would restart the syncer; do the same (bounded).
-			if in.spErr != nil || crashes > maxCrashes+3 {
+			if (in.spErr != nil && !in.wasReset) || crashes > maxCrashes+3 {
 				ps.setViolation(prop+".ended", "replay ended although nothing failed", "incarnation %d ended: spErr=%v sendErr=%v", in.id, in.spErr, in.sendErr)
 				break
 			}
@@ -369,9 +369,11 @@ func runCrashSim(r *Run, prop string, cfg PipeCfg, st *Stream, maxCrashes int, c
 			continue
 		}
 		ready := ps.srv.Ready()
-		if ph == 1 && ps.remaining() == 0 && len(ready) == 0 {
+		if ph == 1 && ps.remaining() == 0 && len(ready) == 0 && !in.wasReset {
 			break
 		}
+		// (an incarnation whose connections the target dropped has not finished: it notices at its next write or
+		// keep-alive, ends with an error and is restarted above)
 		acts := ps.healthyActions(true)
 		if ps.cfg.FaultPace > 1 { // longer stretches of healthy progress between two restarts
 			for i := range acts {
@@ -391,6 +393,14 @@ func runCrashSim(r *Run, prop string, cfg PipeCfg, st *Stream, maxCrashes int, c
 				ps.startIncarnation()
 			}})
 			if crashSoftRestarts {
+				acts = append(acts, pipeAction{"target-reset", w, func() {
+					// the target drops the tool's connections (CLIENT KILL, its idle timeout, a proxy restart) and stays
+					// reachable: nothing is forced, the tool notices at its next read or write, Send ends with an error and the
+					// loop above restarts it on the same output object
+					crashes++
+					ps.targetReset(r.Sched())
+					o.observe()
+				}})
 				acts = append(acts, pipeAction{"conn-loss", w, func() {
 					crashes++
 					ps.connLoss(r.Sched())
@@ -430,6 +440,28 @@ func runCrashSim(r *Run, prop string, cfg PipeCfg, st *Stream, maxCrashes int, c
 	}
 	ps.shutdown()
 	return ps, o
+}
+
+// targetReset: the target closes the connections of the current incarnation (a drawn prefix of the requests already
+// written still executes, their replies are lost) and keeps accepting new ones.
+func (ps *PipeSim) targetReset(c *simrt.Chooser) {
+	in := ps.inc
+	ps.r.W.Fault("target_reset_reachable")
+	in.wasReset = true
+	ps.r.Logf("TARGET RESETS the connections of incarnation %d (stays reachable)", in.id)
+	for _, ss := range ps.srv.Live() {
+		if ss.Dead || ss.Conn.Tag != in.id {
+			continue
+		}
+		n := ps.srv.PendingCount(ss)
+		k := 0
+		if n > 0 {
+			k = c.Choose("reset_exec_more", n+1)
+		}
+		done := ps.srv.KillSession(ss, k)
+		ps.r.Logf("  %s: %d pending, %d still executed", ss.LabelString(), n, done)
+	}
+	ps.absorb()
 }
 
 // connLoss severs the target connections of the current incarnation (a drawn prefix of the requests already written
